@@ -188,7 +188,8 @@ def check_call(key, fn, args, kwargs, strict_pre=True):
         when = ev(compile_clause(case["when"])[0], env)
         ens = []
         if when:
-            for clause in case.get("ensures", []):
+            # naming clauses are assumed by the deductive tier; here they are evaluated like any other post-condition
+            for clause in list(case.get("ensures", [])) + list(getattr(c, "defines", ())):
                 code, olds = compile_clause(clause)
                 ens.append((clause, code, [snap(ev(o, env)) for o in olds]))
         case_data.append((when, ens))
